@@ -149,15 +149,8 @@ Proof.
   rewrite (read_all_map g false (DenseP.T (new_mat 0 rows cols)) s0 eq_refl), Ey. split; reflexivity.
 Qed.
 
-Lemma tip_sweep_24 : forallb (fun p => tip_ok (fst p) (snd p)) (shapes 24) = true.
-Proof. vm_compute. reflexivity. Qed.
-Lemma tip_correct_any_contents_upto24 : forall real rows cols s, 0 <= rows <= 24 -> 0 <= cols <= 24 ->
-  zlen s = rows * cols -> tip_spec real rows cols s.
-Proof.
-  intros real rows cols s Hr Hc Hl. apply tip_any_contents; [|exact Hl].
-  pose proof tip_sweep_24 as S. rewrite forallb_forall in S.
-  exact (S (rows, cols) (in_shapes 24 rows cols Hr Hc)).
-Qed.
+(* the bounded sweep (24 x 24) that used to discharge tip_ok here is superseded by the induction over the
+   cycles for every shape in ProofsTipAll.v; ProofsTip.v keeps the 16 x 16 sweep as an independent cross-check *)
 
 (* ---------------------------------------------------------------- number theory of the cycle map *)
 (* the step of the algorithm *)
